@@ -488,7 +488,9 @@ class OnlineVarianceMetricAdapter(Adapter):
             # https://en.wikipedia.org/wiki/
             #    Algorithms_for_calculating_variance#Parallel_algorithm
             for i, adapt_state in enumerate(adapt_states):
-                if i == 0:
+                # (re)start from this chain's statistics while no samples have been
+                # accumulated yet, to avoid dividing by a zero total count below
+                if i == 0 or n_iter == 0:
                     n_iter = adapt_state["iter"]
                     mean_est = adapt_state.pop("mean")
                     var_est = adapt_state.pop("sum_diff_sq")
@@ -616,7 +618,9 @@ class OnlineCovarianceMetricAdapter(Adapter):
             # Use Schubert and Gertz (2018) parallel covariance estimation
             # algorithm to combine per-chain statistics
             for i, adapt_state in enumerate(adapt_states):
-                if i == 0:
+                # (re)start from this chain's statistics while no samples have been
+                # accumulated yet, to avoid dividing by a zero total count below
+                if i == 0 or n_iter == 0:
                     n_iter = adapt_state["iter"]
                     mean_est = adapt_state.pop("mean")
                     covar_est = adapt_state.pop("sum_diff_outer")
